@@ -11,6 +11,7 @@ _TRUST = ("Trusted: go/ssa lowering, the gosym interpreter, z3; stubs listed in 
 CHECKS = {
     "C06": {
         "pkgs": ["./pkg/netceptor"],
+        "schedule_harnesses": ["Verif_C06_concurrent_deliveries"],
         "bounds": "one update (and one re-delivery) from an arbitrary node state over the universe {A=self,B,C,D}; epochs, sequences, "
                   "costs arbitrary 64-bit/real values; 7 edges with symbolic presence; update lists <= 3 neighbours",
         "assumptions": ["update IDs are unique per update (8 random characters)", "float costs encoded as reals"],
@@ -254,7 +255,7 @@ CHECKS = {
                   "receptor names {decode error, none, [ex], [ot], [ot,ex,e]} x DNS/receptor mode x server/client/invalid role x expected name "
                   "{ex, empty}; client profile {insecure or not, pin or not} x mode; mutual-TLS listener with claimed node in {N, NN, N:x, C:N, :, N:} "
                   "x certificate name in 8 values x pin or not",
-        "no_native": ["Verif_C09_verify_decision", "Verif_C09_client_config", "Verif_C09_listener_peer_identity"],
+        "no_native": ["Verif_C09_verify_decision", "Verif_C09_client_config", "Verif_C09_listener_peer_identity", "Verif_C09_verifier_reuse"],
         "assumptions": ["crypto/x509 (ParseCertificate, Certificate.Verify, CertPool), crypto/tls (Config.Clone), sha256/sha512 and utils.ReceptorNames are "
                         "verdict models: their answers are free variables, the arguments receptor passes to them are captured and checked",
                         "QUIC transport stubbed for the listener harness (only the TLS configuration it receives is used)"],
